@@ -978,6 +978,10 @@ func c11(c *core.Ctx) {
 	// given is the WHOLE request body (a full read of the body itself, not of a truncating view of it) — a body cut
 	// at a limit can decode although the request as sent does not (C07/R3)
 	c.Borrow("C07", map[string]string{"R3": "R13"}, c07)
+	// what follows the one request of a single-request method is looked at: the handler's receive reads on to the end
+	// of the request body, so that trailing garbage or a cut second frame ends the call with a non-OK status instead
+	// of being ignored (C08/R3)
+	c.Borrow("C08", map[string]string{"R3": "R14"}, c08)
 
 }
 
